@@ -87,6 +87,9 @@ func genC03(seed uint64, idx int) *Plan {
 	if r.IntN(3) == 0 {
 		p.Trailer = []TrailerRec{{Type: 20, Len: 1}, {Type: 23, Len: 1 + r.IntN(500)}}
 	}
+	if r.IntN(8) == 0 {
+		p.InnerSIDLen = 1 + r.IntN(32)
+	}
 	return &Plan{Kind: "script", Seed: seed, Script: p}
 }
 
@@ -113,6 +116,7 @@ var c04Muts = []mutSpec{
 	{kind: "oe-absent", alerts: []int{alIllegalParameter}, needRun: true},
 	{kind: "oe-ech", alerts: []int{alIllegalParameter}, needRun: true},
 	{kind: "oe-twice", alerts: []int{alIllegalParameter, alDecodeError}, needRun: true},
+	{kind: "oe-bomb", alerts: []int{alIllegalParameter}, needRun: true},
 	{kind: "trunc-inner", alerts: []int{alDecodeError, alIllegalParameter}},
 	{kind: "inner-len-lie", alerts: []int{alDecodeError, alIllegalParameter}},
 	{kind: "ech-ext-lie", alerts: []int{alDecodeError, alIllegalParameter}},
